@@ -22,7 +22,8 @@ for d in sorted(os.listdir(os.path.join(V, "seeded"))):
     if not os.path.exists(p) or (only and only not in d):
         continue
     meta = json.load(open(os.path.join(V, "seeded", d, "meta.json")))
-    props = [meta["breaks_property"]] + [x for x in meta.get("also_breaks", [])]
+    # round 4 changes were written against an AREA of the crate, not a property: they list the checks that look at that area
+    props = ([meta["breaks_property"]] if meta.get("breaks_property") else []) + list(meta.get("also_breaks", [])) + list(meta.get("candidate_checks", []))
     checks = [c for c in dict.fromkeys(props + extra) if c in claimed]
     if not checks:
         print(d, "no claimed check yet"); continue
